@@ -290,6 +290,9 @@ def index_columns(draw, frames: int):
     direction = draw(st.sampled_from((1, 1, -1)))
     if regular:
         step = draw(st.integers(1, 5000)) * direction
+        if draw(st.integers(0, 24)) == 0:  # an index that passes through the customary null value -999.25
+            decimals = draw(st.sampled_from((2, 2, 3, 4)))
+            start = -99925 * 10 ** (decimals - 2) - draw(st.integers(0, frames - 1)) * step
         ns = [start + i * step for i in range(frames)]
         step_text = _fixed(step, decimals)
     else:
@@ -362,7 +365,11 @@ def las_models(draw, max_curves=8, max_frames=30, max_lines=8, retype_pct=0, bad
     other_null_pct  chance that the ~W NULL line declares something else than -999.25 (or is absent)
     """
     vers = draw(st.sampled_from(('2.0', '2.0', '1.2', '1.2', '2.00', '1.20')))
-    ncurves = draw(st.one_of(st.integers(min_curves, max_curves), st.integers(min_curves, min(max_curves, 4))))
+    if min_curves >= 2 or draw(st.integers(0, 11)) != 0:
+        lo = min(max(2, min_curves), max_curves)
+        ncurves = draw(st.one_of(st.integers(lo, max_curves), st.integers(lo, max(lo, min(max_curves, 4)))))
+    else:
+        ncurves = 1  # the index alone
     nframes = draw(st.one_of(st.integers(min_frames, max_frames), st.integers(min_frames, min(max_frames, 5))))
     # index + null
     index, step_text = draw(index_columns(nframes))
@@ -590,6 +597,7 @@ def render_las_info(model, layout):
         else:
             for line in model[sect]:
                 emit(header(line))
+    info['lines_before_a'] = len(out)   # header part: everything before the ~A title and its decorations
     emit(title('A'))
     state['zone'] = 'D'
     for row in model['data']:
@@ -608,6 +616,7 @@ def render_las_info(model, layout):
     text = '\n'.join(out)
     if layout.get('final_newline', True):
         text += '\n'
+    info['header_text'] = '\n'.join(out[:info['lines_before_a']]) + '\n'
     return text, info
 
 
